@@ -88,7 +88,7 @@ def declare(spec):
       previous_class="str", priority_class="int", prev_priority_class="int", original_class="str",
       is_blocked="bool", server="bool || obj:Server", queue_size_at_arrival="date",
       queue_size_at_departure="date", destination="date", interrupted="bool", node="date", simulation="val",
-      reneging_date="time", class_change_date="time", next_class="str", time_left="num",
+      reneging_date="time", class_change_date="time", next_class="str", time_left="time",
       original_service_time=SERVTIME, original_service_start_date="date", with_server="bool",
       date_last_update="num", route="list:Route", starting_node="int")
 
